@@ -309,3 +309,41 @@ def _(run):
         other_method = z3.And(z3.Not(dnone), z3.Not(own_none), d != own, z3.Not(same), z3.Not(any_type), z3.Not(base_is_other))
         return z3.Implies(other_method, v.t == R(z3.BoolVal(False), d))
     run.post(ex, outs, pre, {'result-is-the-chain-reading': spec, 'a-step-of-the-other-method-does-not-end-the-search': keeps_looking})
+
+
+# ------------------------------------------------------------------ the fixed-value block of XsdElement.raw_decode for simple content (C02, C19, C04)
+t = Target('elements.raw_decode.fixed_value_block', ['C19', 'C02', 'C04'], F, 'XsdElement.raw_decode', anchor='if self.fixed is not None:\n    if not text:',
+           note='statement contract: an element with a fixed value and simple content takes the fixed value when it has no text; a text is an error exactly when it differs from the fixed '
+                'literal AND its decoded value is not strictly equal to the decoded fixed value - whatever the datatype (strings included); exactly one error is reported then',
+           assumes=['text_decode and strictly_equal are uninterpreted (value-space equality of the declared type)', 'an absent text (None) is represented by the empty string: the block tests only its truthiness first'])
+
+
+@t.symbolic
+def _(run):
+    ex = run.exec(); st = new_state()
+    text = z3.String('text'); tnone = z3.Bool('text_none'); fixed = z3.String('fixed')
+    dec = z3.Function('text_decode', S, Ref); seq = z3.Function('strictly_equal', Ref, Ref, B)
+    st.objf['self'] = {'fixed': VStr(fixed)}; st.objf['xsd_type'] = {}; st.objf['context'] = {}
+    st.env.update(self=VObj('self'), text=VStr(text), xsd_type=VObj('xsd_type'), context=VObj('context'), validation=VStr(z3.String('validation')), obj=OPAQUE)
+    st.ghost['errs'] = 0
+    ex.callees['text_decode'] = lambda e, s, r, a, k: VRef(dec(lift(a[0]).t))
+    ex.callees['strictly_equal'] = lambda e, s, r, a, k: VBool(seq(a[0].t, a[1].t))
+
+    def verr(e, s, r, a, k): s.ghost['errs'] += 1; return NONE
+    ex.callees['validation_error'] = verr
+    ex.callees['_'] = lambda *a: OPAQUE
+    orig_binop = ex.e_BinOp
+    ex.e_BinOp = lambda e, s: OPAQUE if isinstance(e.op, ast.Mod) else orig_binop(e, s)
+    pre = z3.BoolVal(True); run.inputs.update(text=text, fixed=fixed)
+    outs = ex.run(st, pre)
+    empty = z3.Length(text) == 0
+    bad = z3.And(z3.Not(empty), text != fixed, z3.Not(seq(dec(text), dec(fixed))))
+
+    def one_error(kind, v, s): return z3.If(bad, z3.BoolVal(s.ghost['errs'] == 1), z3.BoolVal(s.ghost['errs'] == 0)) if kind == 'fall' else z3.BoolVal(False)
+
+    def takes_fixed(kind, v, s):
+        if kind != 'fall': return z3.BoolVal(False)
+        t2 = s.env['text']
+        val = t2.val.t if isinstance(t2, VOpt) else t2.t; none = t2.none if isinstance(t2, VOpt) else z3.BoolVal(False)
+        return z3.If(empty, z3.And(z3.Not(none), val == fixed), z3.And(z3.Not(none), val == text))
+    run.post(ex, outs, pre, {'error-iff-text-differs-from-the-fixed-value-in-the-value-space': one_error, 'no-text-takes-the-fixed-value-a-text-is-kept': takes_fixed})
